@@ -147,11 +147,14 @@ impl OutputFormat for IceDraw {
         o += 2;
         let x2 = (data[o] as u16 + ((data[o + 1] as u16) << 8)) as i32;
         o += 2;
-        // skip y2
+        let y2 = (data[o] as u16 + ((data[o + 1] as u16) << 8)) as i32;
         o += 2;
 
         if x2 < x1 {
             return Err(anyhow::anyhow!("invalid bounds for idf width needs to be >=0."));
+        }
+        if y2 < y1 {
+            return Err(anyhow::anyhow!("invalid bounds for idf height needs to be >=0."));
         }
 
         result.set_width(x2 - x1 + 1);
@@ -177,7 +180,8 @@ impl OutputFormat for IceDraw {
                 attr = data[o];
                 o += 1;
             }
-            while rle_count > 0 {
+            // the header declares the rectangle of the picture: a run (16 bit count) does not fill rows below it
+            while rle_count > 0 && pos.y <= y2 {
                 result.layers[0].set_height(pos.y + 1);
                 result.set_height(pos.y + 1);
                 let attribute = TextAttribute::from_u8(attr, result.ice_mode);
